@@ -31,7 +31,7 @@ META = dict(
     need=["trees", "points", "value_cmp", "jac_cmp", "mirror_value_cmp", "mirror_jac_cmp",
           "structure_changed", "shared_subtree_trees", "shared_leaf_trees", "cloned_trees"],
     quick=dict(cases=240, workers=6, budget_s=75),
-    thorough=dict(cases=2000, workers=16, budget_s=780),
+    thorough=dict(cases=1500, workers=16, budget_s=780),
     design_ref="DESIGN.md §5 C05",
     level_text=("random trees with explicit sharing, many points per tree, value and dense "
                 "Jacobian compared between original, optimised and mirror; exploration"),
